@@ -133,9 +133,9 @@ class SmartList(list):
             raise ValueError("List only supports elements of type '%s'" %
                              self._content_type)
 
-        # Elements can be addressed by name like in __getitem__; work with the
-        # position, the list itself only takes an index.
-        if isinstance(key, str):
+        # Elements can be addressed by name or by object like in __getitem__; work
+        # with the position, the list itself only takes an index.
+        if not isinstance(key, int):
             target = self[key]
             key = next(idx for idx, obj in enumerate(self) if obj is target)
 
